@@ -29,10 +29,24 @@ def checkHashProg (kvs okv : List (String × String)) : String := Id.run do
   let vars := List.range n
   let want := picks.map fun i => wsum S vars (weightsOf ws) (fns.getD i fFalse) (fun _ => false)
   let wantNeg := want.map fun h => (1 + P - h) % P
-  for (k, what) in [("hb1", "BDD under the first order"), ("hb2", "BDD under the second order"),
+  -- The semantic-hash builder identifies nodes by hash.  Its results are promised correct over
+  -- the 64-bit field only, and "equal functions are never judged different" rests on "equal
+  -- functions hash equally", which holds for well-formed diagrams: after a hash COLLISION the
+  -- builder may hand out diagrams that are not partitions any more (their hash is then not the
+  -- weighted sum of their function).  The mirrored builder with its collision detector on
+  -- (`SddSem.runChecked`, `Props/C11.lean`: `semantic_correct_partial`,
+  -- `detector_reports_collisions`) says whether a collision happened in this program; if it did
+  -- and the field is a small one, nothing is required of this builder's results.
+  let collided : Bool :=
+    match (lookup okv "vt1").bind parseVTree, ops.mapM toSddOp with
+    | some vt1, some sops =>
+      (SddSem.run vt1 P ws 200 sops).isSome && (SddSem.runChecked vt1 P ws 200 sops).isNone
+    | _, _ => false
+  let semFree := collided && P != Constants.u64largest
+  for (k, what) in ([("hb1", "BDD under the first order"), ("hb2", "BDD under the second order"),
       ("hs1", "compressed SDD under the first vtree"), ("hs2", "uncompressed SDD under the second vtree"),
       ("cb", "cached BDD hash"), ("cs", "cached SDD hash"), ("csm", "smoothed BDD (cached)"), ("hsm", "smoothed BDD (recomputed)"),
-      ("semh", "node of the semantic-hash builder")] do
+      ("semh", "node of the semantic-hash builder")].filter fun (k, _) => !(semFree && k == "semh")) do
     let some got := (lookup okv k).bind parseNatList | return s!"FAIL PARSE {k}"
     if got != want then return s!"FAIL SPEC the semantic hash of the {what} is {got}, the weighted sum of the function is {want}"
   for k in ["hneg", "hsneg", "csmneg"] do
@@ -40,14 +54,14 @@ def checkHashProg (kvs okv : List (String × String)) : String := Id.run do
     if got != wantNeg then return s!"FAIL SPEC the hash of a negation {got} is not one minus the hash {wantNeg}"
   -- the semantic-hash builder
   let tts := fns.map (ttString n)
+  if semFree then return "ok nontrivial=0 collision_small_field"
   if (lookup okv "semtt") != some ("|".intercalate tts) then
-    if P == Constants.u64largest then return "FAIL SPEC a diagram returned by the semantic-hash SDD builder over the 64-bit field denotes the wrong function"
-    else return "ok nontrivial=0 collision_small_field"
+    return s!"FAIL SPEC a diagram returned by the semantic-hash SDD builder denotes the wrong function ({if collided then "64-bit field" else "no hash collision occurred in this program"})"
   let some semeq := (lookup okv "semeq").bind parseNatList | return "FAIL PARSE semeq"
   for (c, i) in semeq.zipIdx do
     let first := ((List.range (i + 1)).find? fun j => tts[j]? == tts[i]?).getD i
     if c > first then return s!"FAIL SPEC the semantic-hash builder judges results #{first} and #{i} different although they denote the same function"
-    if c < first && P == Constants.u64largest then return s!"FAIL SPEC the semantic-hash builder judges results #{c} and #{i} equal although they denote different functions (64-bit field)"
+    if c < first then return s!"FAIL SPEC the semantic-hash builder judges results #{c} and #{i} equal although they denote different functions"
   -- mirrored models: the SDD fold on the model's own results, and the semantic-hash builder
   match (lookup okv "vt1").bind parseVTree, ops.mapM toSddOp with
   | some vt1, some sops =>
